@@ -178,6 +178,22 @@ Theorem C06_px_granularity : forall nowms n, 0 < n ->
 Proof. exact px_deadline_granularity. Qed.
 Print Assumptions C06_px_granularity.
 
+(* (PX rounding) SET k v PX n on an absent key or a string: for EVERY n >= 1 that is an int64 the
+   deadline is exactly  now + n/1000 + (1 if n mod 1000 <> 0)  =  now + ceil(n/1000) -- the code's
+   own formula; nothing overflows below MaxInt64 (ceil(n/1000) <= 9223372036854776), so huge
+   accepted values are pinned as well: PX 9007199254740992 gives TTL 9007199254741, PX MaxInt64
+   gives TTL 9223372036854776, never a deadline in the past. *)
+Theorem C06_px_deadline_rounding : forall d now nowms c k v px nb n hint,
+  db_wf d -> lower c = B "set" -> lower px = B "px" -> atoi64 nb = Some n -> 1 <= n ->
+  match view d now k with None => True | Some (VStr _, _) => True | Some _ => False end ->
+  let res := exec d now nowms [c; k; v; px; nb] hint in
+  fst res = rOK /\
+  raw_view (snd res) k = Some (VStr v, Some (now + n / 1000 + (if n mod 1000 =? 0 then 0 else 1))) /\
+  n / 1000 + (if n mod 1000 =? 0 then 0 else 1) = (n + 999) / 1000 /\
+  1 <= n / 1000 + (if n mod 1000 =? 0 then 0 else 1) <= 9223372036854776.
+Proof. exact exec_set_px_deadline. Qed.
+Print Assumptions C06_px_deadline_rounding.
+
 (* (SET, not written) NX on a visible key, XX on an invisible one, GET on a key of another type, or
    an argument error: the step changes nothing -- in particular no deadline.  (Without GET a key of
    another type is overwritten like a string: [set_writes].) *)
@@ -462,4 +478,17 @@ Example ex_per_database :
      sv 1 102 [B "TTL"; B "k"]; sv 1 102 [B "DEL"; B "k"]; sv 0 102 [B "TTL"; B "k"]])
   = [rOK; rOK; rOK; rOK; RInt 1; RInt 1; RInt 100; RInt (-1); RInt 1;
      RInt 0; RInt 98; RBulk (B "v"); RInt (-1); RInt 1; RInt 98].
+Proof. vm_compute. reflexivity. Qed.
+
+(* the boundary values of the check, in the model *)
+Example ex_px_boundaries :
+  fst (run empty_db
+    [st 100 [B "SET"; B "k"; B "v"; B "PX"; B "10000000000000"]; st 100 [B "TTL"; B "k"];
+     st 100 [B "SET"; B "k"; B "v"; B "PX"; B "9007199254740992"]; st 100 [B "TTL"; B "k"];
+     st 100 [B "SET"; B "k"; B "v"; B "PX"; B "9223372036854775807"]; st 100 [B "TTL"; B "k"];
+     st 100 [B "SET"; B "k"; B "v"; B "PX"; B "9223372036854775808"]; st 100 [B "SET"; B "k"; B "v"; B "PX"; B "0"];
+     st 100 [B "SET"; B "k"; B "v"; B "PX"; B "1"]; st 100 [B "TTL"; B "k"];
+     st 100 [B "SET"; B "k"; B "v"; B "EX"; B "9223372036854775707"]; st 100 [B "SET"; B "k"; B "v"; B "EX"; B "9223372036854775708"]])
+  = [rOK; RInt 10000000000; rOK; RInt 9007199254741; rOK; RInt 9223372036854776; err_other; err_other;
+     rOK; RInt 1; rOK; err_other].
 Proof. vm_compute. reflexivity. Qed.
